@@ -518,9 +518,9 @@ func cmdProp(args []string) int {
 			"violations":               vlist,
 			"note":                     ps.Note,
 		}}
-	os.MkdirAll(filepath.Join(root, "evidence"), 0o755)
+	os.MkdirAll(evidenceDir(root), 0o755)
 	data, _ := json.MarshalIndent(ev, "", " ")
-	os.WriteFile(filepath.Join(root, "evidence", ps.ID+".json"), data, 0o644)
+	os.WriteFile(filepath.Join(evidenceDir(root), ps.ID+".json"), data, 0o644)
 	sort.Slice(results, func(i, j int) bool { return results[i].Time > results[j].Time })
 	for i := 0; i < 3 && i < len(results); i++ {
 		fmt.Printf("    slowest: %6.2fs %s [%s]\n", results[i].Time, results[i].Obl.Name, results[i].Status)
@@ -570,9 +570,9 @@ func reportGenerationFailure(ps *PropSpec, tier string, seed int, msg string, t0
 	ev := Evidence{PropertyID: ps.ID, Tier: tier, Seed: seed, Level: "proof", WallS: round3(time.Since(t0).Seconds()), Violations: 1,
 		Coverage: map[string]interface{}{"obligations": 1, "discharged": 0, "checker_cmd": "bin/govc prop -p " + ps.ID, "trusted_base": []string{},
 			"samples": []map[string]string{{"generation_failure": msg}}}}
-	os.MkdirAll(filepath.Join(root, "evidence"), 0o755)
+	os.MkdirAll(evidenceDir(root), 0o755)
 	data, _ := json.MarshalIndent(ev, "", " ")
-	os.WriteFile(filepath.Join(root, "evidence", ps.ID+".json"), data, 0o644)
+	os.WriteFile(filepath.Join(evidenceDir(root), ps.ID+".json"), data, 0o644)
 	return 1
 }
 
@@ -719,4 +719,11 @@ func dropFirstGuard(e Expr) (Expr, bool) {
 		}
 	}
 	return e, false
+}
+
+func evidenceDir(root string) string {
+	if EvidenceDir != "" {
+		return EvidenceDir
+	}
+	return filepath.Join(root, "evidence")
 }
